@@ -54,6 +54,21 @@ def nextBack (m : Mode) (it : Rows) : Res (Option Win × Rows) :=
       let v ← fst.getTo e
       pure (some snd, { it with v := v })
 
+/-- `RowsMut::next_back` src/iter.rs:191-208 as written (the new length is `tmp_len - cols - skip_cols`, computed from the whole
+    length rather than from `fst.len()`); proved equal to `nextBack` in Proofs/IterLemmas-independent lemma `Rows.nextBackMut_eq`. -/
+def nextBackMut (m : Mode) (it : Rows) : Res (Option Win × Rows) :=
+  if it.v.len = 0 then pure (none, it)
+  else do
+    let tmpLen := it.v.len
+    let mid ← usub m tmpLen it.cols
+    let (fst, snd) ← it.v.splitAt mid
+    if fst.len = 0 then pure (some snd, { it with v := Win.empty })
+    else do
+      let a ← usub m tmpLen it.cols
+      let e ← usub m a it.skip
+      let v ← fst.getTo e
+      pure (some snd, { it with v := v })
+
 /-- `nth_back` src/iter.rs:98-109 (`Rows`), 211-225 (`RowsMut`, after the fix the new length is computed before `mem::take`) -/
 def nthBack (m : Mode) (it : Rows) (n : Nat) : Res (Option Win × Rows) := do
   let d ← uadd m it.cols it.skip
